@@ -53,6 +53,11 @@ def jobs(tier):
                         continue          # quick tier: a deterministic third of the family plus the full UTF-8 / offset-3 slice
                     name = f"S|{codec}|{delim}|{src}|{off}" + (f"|{order}" if order and order != "mostSignificantByteFirst" else "")
                     out.append(J(name, 16))
+    # the string as the LAST field of a packet that ends in the string's last byte (lengths that are not whole bytes included)
+    for delim in (("whole", "term") if q else templates.DELIMS):
+        for off in ((1, 3, 4) if q else range(8)):
+            out.append(J(f"S|UTF-8|{delim}|ref-raw-bits|{off}|mostSignificantByteFirst|LAST", 8))            # 48 + off + 4 + L bits, L = 0..15: ends in byte 7 or 8
+            out.append(J(f"S|UTF-8|{delim}|fixed-odd|{off}|mostSignificantByteFirst|LAST", (48 + off + 4 + 21 + 7) // 8))
     for src in templates.SOURCES:
         for off in offs:
             out.append(J(f"B|{src}|{off}", 14))
